@@ -43,7 +43,12 @@ def space(tier):
         g3 = G.Grammar(accs=("acc1",), calls=("CALL", "CALLN"), ifp=True, rich=True, max_depth=2)
         seen |= set(p2)
         extra = [p for p in g3.programs(4) if G.has_launch(p) and p not in seen]
-    return p1 + p2 + extra + G.skeletons("acc1")
+    slim = []
+    if tier == "quick":
+        # one node deeper than the full grammar, with few leaves and nesting depth 1 (sequences of conditionals / loops / calls)
+        seen |= set(p2)
+        slim = [p for p in G.slim_programs(b["one_acc_nodes"] + 1) if p not in seen]
+    return p1 + p2 + extra + slim + G.skeletons("acc1")
 
 
 def evaluate(prog, only_vector=None) -> CaseResult:
